@@ -72,10 +72,10 @@ def check_meaning(ctx, backend, e, text):
         # the constructor removes TAB/CR/LF everywhere and strips leading C0/space from the whole string (WHATWG pre-processing,
         # decided by C07); they are removed by construction here
         t = t.replace("\t", "").replace("\r", "").replace("\n", "")
-        if e == "join.ref.path":
-            t = t.lstrip(ref.C0_SPACE)
     if "auth-path" in ent.tags:
         t = strip_dots(t)
+    if e == "join.ref.path":
+        t = t.lstrip(ref.C0_SPACE)
     if ent.needs and not ent.needs(t):
         ctx.case(False, label="skipped:not-applicable")
         return
